@@ -108,7 +108,11 @@ Groups ==
                  ps \in Pick({<<>>} \cup {<<[n |-> "p", sh |-> sh, tags |-> <<>>]>> :
                                        sh \in Pick({s \in Shapes(fr.app) : s.wrap = "" /\ ~(s.p = "" /\ Len(s.ref) > 2)})})},
          {[k |-> "rest", parts |-> ps] : ps \in {<<[var |-> FALSE, n |-> "things"]>>,
-                 <<[var |-> FALSE, n |-> "a"], [var |-> TRUE, n |-> "id", sh |-> [p |-> "int", ref |-> <<>>, size |-> <<>>, opt |-> FALSE, wrap |-> ""]]>>}},
+                 <<[var |-> FALSE, n |-> "a"], [var |-> TRUE, n |-> "id", sh |-> [p |-> "int", ref |-> <<>>, size |-> <<>>, opt |-> FALSE, wrap |-> ""]]>>}
+                 \* a path variable whose type is a reference (to a local type or to a type of another application)
+                 \cup (IF Rich THEN {<<[var |-> FALSE, n |-> "r"], [var |-> TRUE, n |-> "key", sh |-> sh]>> :
+                                       sh \in Pick({x \in RefShapes(fr.app) : x.wrap = "" /\ ~x.opt /\ Len(x.ref) = 2})}
+                       ELSE {})},
          (IF Rich THEN {[k |-> "event", name |-> "Ev", pos |-> NoPos]} ELSE {}),
          (IF Rich THEN {[k |-> "sub", src |-> o, name |-> "Ev", pos |-> NoPos] : o \in Apps \ {fr.app}} ELSE {}),
          (IF Rich THEN {[k |-> "anno", name |-> "note", val |-> "some text"]} ELSE {}),
